@@ -28,6 +28,9 @@ mod ops;
 mod writeout;
 
 pub use allocator::PageNumber;
+
+#[cfg(feature = "verif-hooks")]
+pub(crate) use ops::overflow::verif_total_needed_pages;
 use index::Index;
 pub use iterator::BeatreeIterator;
 use leaf_cache::LeafCache;
